@@ -182,6 +182,26 @@ def run(ctx: Ctx, tier: str) -> Result:
         else:
             res.fail(Finding("C17.FAN", pa.qname, c, pa.loc(c), "a failing processor aborts the remaining processors/metrics (no guard inside the processor loop)"))
 
+    # "every active metric processor": the enumeration of the plugins of a kind hands out every plugin of the list that is of
+    # that kind - nothing but the kind decides (two exporters of one class, or with one name, are two processors)
+    csvc = p.cls("deep.config.config_service.ConfigService")
+    gens = [f_ for lst_ in csvc.methods.values() for f_ in lst_ if list(t.nodes_in(f_, (ast.Yield, ast.YieldFrom)))]
+    for gf_ in gens:
+        tp_ = gf_.params[1] if len(gf_.params) > 1 else None
+        for y_ in t.nodes_in(gf_, (ast.Yield, ast.YieldFrom)):
+            cnds = paths.conditions(p, paths.stmt_of(p, y_), gf_)
+            other = [c_ for c_, _pol in cnds if not (isinstance(c_, ast.Call) and norm(c_.func) == "isinstance" and len(c_.args) == 2 and tp_ and norm(c_.args[1]) == tp_)]
+            filt = [g_ for n_ in ast.walk(y_) if isinstance(n_, (ast.ListComp, ast.GeneratorExp)) for g_ in n_.generators for i_ in g_.ifs
+                    if not (isinstance(i_, ast.Call) and norm(i_.func) == "isinstance")]
+            cut = [n_ for n_ in t.nodes_in(gf_, (ast.Break, ast.Return)) if not (isinstance(n_, ast.Return) and n_.value is None and False)]
+            if other or filt or cut:
+                what_ = other[0] if other else (filt[0].ifs[0] if filt else cut[0])
+                res.fail(Finding("C17.FAN", gf_.qname, what_, gf_.loc(what_), "the plugins of a kind are handed out depending on `%s`, not on their kind alone: an active processor "
+                                 "(a second exporter of the same class or name) receives nothing" % norm(what_)[:60]))
+            else:
+                res.ok("C17.FAN", {"every plugin of the kind is handed out by": gf_.qname})
+    res.floor("plugin enumerations of the configuration", len(gens), 1)
+
     # ---------------- VALUE
     # every assignment of the value is one of: the constant 1 (no expression given, or the fallback of the guard), or
     # float(<the metric's expression evaluated in the frame>) exactly when an expression is given, inside a guard
@@ -246,11 +266,17 @@ def run(ctx: Ctx, tier: str) -> Result:
         res.fail(Finding("C17.VALUE", pm.qname, "<labels[key] = value>", pm.loc(), "labels are stored %d times (expected one store in the label loop)" % len(lst)))
 
     # ---------------- NOPROC
-    sf = p.func(MA + ".can_trigger")
-    st = Table(ctx, sf)
-    hs_t = [k for k in st.vars.truths if "MetricProcessor" in k or "has_metric_processor" in k]
-    hs_e = [k for k in st.vars.enums if ("MetricProcessor" in k or "has_metric_processor" in k) and None in st.vars.enums[k]]
-    if len(hs_t) + len(hs_e) == 1:
+    sf = p.functions.get(MA + ".can_trigger")
+    if sf is None:
+        res.fail(Finding("C17.NOPROC", MA, "<def can_trigger: no metric processor -> False>", p.cls(MA).module.relpath,
+                         "the metric action has no can_trigger of its own any more: with no metric processor active the action still triggers - nothing is reported, "
+                         "but the hit is recorded and uses up the tracepoint's fire count / period"))
+    st = Table(ctx, sf) if sf is not None else None
+    hs_t = [k for k in st.vars.truths if "MetricProcessor" in k or "has_metric_processor" in k] if st else []
+    hs_e = [k for k in st.vars.enums if ("MetricProcessor" in k or "has_metric_processor" in k) and None in st.vars.enums[k]] if st else []
+    if st is None:
+        pass
+    elif len(hs_t) + len(hs_e) == 1:
         H = (hs_t + hs_e)[0]
         rv = Vars()
         rv.truth(H) if hs_t else rv.enum(H, None)
